@@ -205,7 +205,7 @@ func (x *recMsg) ProtoMethods() *protoiface.Methods          { return nil }
 func (x *recMsg) New() protoreflect.Message {
 	defer x.r.guard(x.a, x.m.Descriptor(), "New", nil)
 	n := x.m.New()
-	x.r.emit(x.a, x.m.Descriptor(), "New", nil, rView(n.IsValid(), 0))
+	x.r.emit(x.a, x.m.Descriptor(), "New", nil, msgView(n))
 	return x.r.newRoot(n)
 }
 
@@ -416,7 +416,7 @@ func (l *recList) AppendMutable() protoreflect.Value {
 	set, a, md := l.op("LAppendMutable", nil)
 	defer l.x.r.guard(a, md, "LAppendMutable", set)
 	v := l.l.AppendMutable()
-	l.x.r.emit(a, md, "LAppendMutable", set, rView(v.Message().IsValid(), 0))
+	l.x.r.emit(a, md, "LAppendMutable", set, msgView(v.Message()))
 	return l.elem(l.l.Len()-1, v)
 }
 
@@ -560,7 +560,7 @@ func (m *recMap) Mutable(k protoreflect.MapKey) protoreflect.Value {
 	set, a, md := m.op(func(o *LOp) { o.K = m.key(k) })
 	defer m.x.r.guard(a, md, "MMutable", set)
 	v := m.m.Mutable(k)
-	m.x.r.emit(a, md, "MMutable", set, rView(v.Message().IsValid(), 0))
+	m.x.r.emit(a, md, "MMutable", set, msgView(v.Message()))
 	return m.elem(k, v)
 }
 
